@@ -311,6 +311,7 @@ func init() {
 	register("C09", func() *Check {
 		return &Check{ID: "C09", Scenarios: []Scenario{
 			{Name: "limit-lattice", Count: func(string) int { return c09Count() }, Run: c09Run},
+			schedScenario("limit-exceeded-by-a-spawned-thread", c09SpawnedCases()),
 			{Name: "wide-frames-under-large-limits", Count: func(string) int { return c09WideCount() }, Run: func(_ string, idx int, r *Result) { c09WideRun(idx, r) }},
 		}}
 	})
